@@ -367,6 +367,8 @@ M.loop('exactly_lib.test_suite.enumeration:DepthFirstEnumerator.apply', 0,
 # suite in progress, reset by new_sub_suite_reporter): cases (the listed cases), k (cases completed),
 # phase (0 idle, 1 after progress.case_begin, 2 after processor.apply, 3 after progress.case_end), ok;
 # cases_ok accumulates the verdict of the completed suites at suite_end.
+import ast
+
 from pyvc.interp import PyRaise, ArbitraryException
 from exactly_lib.test_suite import processing
 from exactly_lib.processing import processors as case_processing
@@ -519,6 +521,7 @@ def _apply(interp, self, args, kwargs):
     (case,) = args
     st = interp.st
     interp.call(_mon_apply, [st.ghost, self, case], {})
+    st.ghost['n_applied'] = interp.binop(ast.Add, st.ghost['n_applied'], 1)      # cases executed in this run
     st.emit('apply', self, case)
     if st.choose(2) == 1:
         st.ghost['raised'] = True
@@ -563,7 +566,7 @@ EXECUTOR = Inst(processing.SuitesExecutor, _reporter=Iface(RootReporterI),
 _INNER = {'ghost:cur_suite': Any_, 'ghost:cur_sub': Any_, 'ghost:cases': ListOf(CASE), 'ghost:k': Int,
           'ghost:phase': Int, 'ghost:ok': Bool, 'ghost:begun': Bool, 'ghost:ended': Bool, 'ghost:cases_ok': Bool,
           'ghost:raised': Bool, 'ghost:last_result': Any_, 'ghost:cur_processor': Any_,
-          'ghost:cur_processor_setup': Any_}
+          'ghost:cur_processor_setup': Any_, 'ghost:n_applied': Int}
 _OUTER = {'ghost:root_phase': Int, 'ghost:suites_done': Int, 'ghost:suites_ok': Bool, 'ghost:final': Int}
 
 
@@ -572,6 +575,10 @@ def _set_suites(interp, args, ghosts):
         interp.st.ghost['suites'] = args['suits_in_processing_order']
     else:
         interp.st.ghost['suites'] = ListOf(SUITE).make(interp, 'ghost.suites')
+
+
+def _effect_set_suites(ghost, suits_in_processing_order):
+    ghost['suites'] = suits_in_processing_order
 
 
 M.contract(P_PROC + ':_process_case', props=('C16', 'C18'),
@@ -630,14 +637,20 @@ M.loop(P_PROC + ':SuitesExecutor._process_single_sub_suite', 0,
        and ghost['cur_suite'] is suite and ghost['cur_processor'] is case_processor
        and ghost['cur_processor_setup'] is suite.test_case_handling_setup,
        modifies={'ghost:k': Int, 'ghost:phase': Int, 'ghost:ok': Bool, 'ghost:raised': Bool,
-                 'ghost:last_result': Any_, 'case': 'local', 'processing_info': 'local'})
+                 'ghost:last_result': Any_, 'ghost:n_applied': Int, 'case': 'local', 'processing_info': 'local'})
 
 M.contract(P_PROC + ':SuitesExecutor.execute_and_report',
            params=dict(self=EXECUTOR, suits_in_processing_order=ListOf(SUITE)), returns=Int,
-           setup=_set_suites, modifies=dict(_INNER, **_OUTER),
+           setup=_set_suites, modifies=dict(_INNER, **dict(_OUTER, **{'ghost:suites': ListOf(SUITE)})),
            requires=lambda ghost: ghost['root_phase'] == 0 and ghost['suites_done'] == 0 and ghost['suites_ok']
                                   and ghost['cases_ok'],
            ensures={
+               # at call sites the expectation of the monitor is set to the given list (then the clauses below
+               # are assumed); when the function is verified `_set_suites` does the same and the next clause
+               # checks that the function leaves it alone
+               'monitor := the given suites': (_effect_set_suites, 'effect'),
+               'the monitor expects the given suites': lambda ghost, suits_in_processing_order:
+               ghost['suites'] is suits_in_processing_order,
                'begin, every suite once in the given order, end, final result': lambda ghost:
                ghost['suites_ok'] and ghost['root_phase'] == 3,
                'in every suite every listed case exactly once, in listing order': lambda ghost: ghost['cases_ok'],
@@ -650,6 +663,184 @@ M.loop(P_PROC + ':SuitesExecutor.execute_and_report', 0,
        ghost['suites_ok'] and ghost['cases_ok'] and ghost['root_phase'] == 1 and ghost['suites_done'] == _i,
        modifies=dict({k: v for k, v in list(_INNER.items()) + list(_OUTER.items()) if k != 'ghost:final'},
                      suite='local'))
+
+# ------------------------------------------------------------------------------ reading fails / succeeds
+from exactly_lib.common import process_result_reporter
+from exactly_lib.test_suite import result_reporters
+from exactly_lib.test_suite.file_reading import exception as suite_exception
+from exactly_lib.test_suite.file_reading.suite_hierarchy_reading import SuiteHierarchyReader
+from exactly_lib.util.file_printer import FilePrinter
+from exactly_lib.util.file_utils.std import StdOutputFiles
+
+_READ_ERRORS = (suite_exception.SuiteParseError, suite_exception.SuiteDoubleInclusion,
+                suite_exception.SuiteFileReferenceError)
+
+
+def _read(interp, self, args, kwargs):
+    """SuiteHierarchyReader.apply: the hierarchy, or one of the three kinds of SuiteReadError (its docstring)"""
+    st = interp.st
+    k = st.choose(1 + len(_READ_ERRORS))
+    if k == 0:
+        suite = new_opaque(interp, SuiteI, 'root_suite')
+        assume_pred(interp, _po_def, suite)
+        st.ghost['read_failed'] = False
+        st.ghost['read_suite'] = suite
+        return suite
+    exc = _READ_ERRORS[k - 1].__new__(_READ_ERRORS[k - 1])
+    st.ghost['read_failed'] = True
+    st.ghost['read_suite'] = None
+    raise PyRaise(exc)
+
+
+class ReaderI(Interface):
+    target_class = SuiteHierarchyReader
+    methods = {'apply': Method(model=_read)}
+
+
+def _mon_invalid_suite(ghost, exit_value, environment):
+    ghost['invalid_reported'] = ghost['invalid_reported'] + 1
+    ghost['invalid_exit_value'] = exit_value
+
+
+def _execution_reporter(interp, self, args, kwargs):
+    """a new reporter for the run: nothing has happened on it yet"""
+    g = interp.st.ghost
+    g['execution_reporters'] = interp.binop(ast.Add, g['execution_reporters'], 1)
+    g['root_phase'] = 0
+    g['suites_done'] = 0
+    g['suites_ok'] = True
+    g['cases_ok'] = True
+    return new_opaque(interp, RootReporterI, 'root_suite_reporter')
+
+
+class RootProcessingReporterI(Interface):
+    target_class = reporting.RootSuiteProcessingReporter
+    methods = {
+        'report_invalid_suite': _monitored(_mon_invalid_suite, with_self=False),
+        'execution_reporter': Method(model=_execution_reporter),
+    }
+
+
+class FileI(Interface):
+    """a text file (stdout / stderr)"""
+    methods = {'flush': Method(event='flush'), 'write': Method(event='file-write')}
+
+
+class PrinterI(Interface):
+    target_class = FilePrinter
+    methods = {
+        'write_colored_line': Method(event='line', params=['line', 'color']),
+        'write_line': Method(event='line', params=['line', 'indent']),
+        'write': Method(event='write'),
+        'flush': Method(event='flush'),
+    }
+
+
+def lines_on(trace, printer):
+    """the lines written to `printer`, in order"""
+    return [e[2][0] for e in trace if e[0] == 'line' and e[1] is printer]
+
+
+def _mk_env(interp, name):
+    files = StdOutputFiles(Iface(FileI).make(interp, name + '.stdout'), Iface(FileI).make(interp, name + '.stderr'))
+    printers = process_result_reporter.StdOutputFilePrinters(Iface(PrinterI).make(interp, name + '.out'),
+                                                             Iface(PrinterI).make(interp, name + '.err'))
+    return process_result_reporter.Environment(files, printers)
+
+
+ENVIRONMENT = Custom(_mk_env)
+
+# assumed: rendering of the error message writes to the printer it is given (and does nothing else)
+M.contract('exactly_lib.test_suite.error_reporting:print_suite_read_error', trusted=True, modifies={},
+           params=dict(ex=Any_, printer=Iface(PrinterI)), event='print-suite-read-error')
+M.trust('test_suite.error_reporting.print_suite_read_error renders the read error on the printer it is given and '
+        'does nothing else (rendering of error messages is outside the property)')
+
+PROCESSOR = Inst(processing.Processor,
+                 _default_case_configuration=Iface(DefaultConfI), _suite_hierarchy_reader=Iface(ReaderI),
+                 _suite_enumerator=Inst(enumeration.DepthFirstEnumerator), _reporter=Iface(RootProcessingReporterI),
+                 _test_case_processor_constructor=Iface(ProcessorConstructorI))
+
+_READ = {'ghost:read_failed': Bool, 'ghost:read_suite': Any_}
+_INVALID = {'ghost:invalid_reported': Int, 'ghost:invalid_exit_value': Any_}
+_RUN = dict(_INNER, **dict(_OUTER, **{'ghost:suites': ListOf(SUITE), 'ghost:execution_reporters': Int}))
+
+M.contract(P_PROC + ':Processor.process_reporter', params=dict(self=PROCESSOR, suite_root_file_path=Iface(PathI)),
+           inline=True, modifies=dict(_READ),
+           ensures={
+               'a read error gives the reporter of the read error': lambda self, ghost, ret:
+               implies(ghost['read_failed'],
+                       isinstance(ret, result_reporters.SuiteReadErrorReporter)
+                       and ret._suite_processing_reporter is self._reporter),
+               'otherwise the reporter that runs the hierarchy that was read': lambda self, ghost, ret:
+               ghost['read_failed'] or (isinstance(ret, processing._SuiteExecutionReporter)
+                                        and ret._root_suite is ghost['read_suite']
+                                        and ret._suite_processing_reporter is self._reporter
+                                        and ret._suite_enumerator is self._suite_enumerator
+                                        and ret._test_case_processor_constructor
+                                        is self._test_case_processor_constructor
+                                        and ret._default_case_configuration is self._default_case_configuration),
+           }, raises_only=())
+
+READ_ERROR_REPORTER = Inst(result_reporters.SuiteReadErrorReporter, _ex=Any_,
+                           _suite_processing_reporter=Iface(RootProcessingReporterI))
+
+M.contract('exactly_lib.test_suite.result_reporters:SuiteReadErrorReporter.report',
+           params=dict(self=READ_ERROR_REPORTER, environment=ENVIRONMENT), inline=True,
+           modifies=dict(_INVALID), old=lambda ghost: dict(ghost),
+           ensures={
+               'INVALID_SUITE is reported (once) and its exit code 3 returned': lambda ghost, old, ret:
+               ret == 3 and ghost['invalid_reported'] == old['invalid_reported'] + 1
+               and ghost['invalid_exit_value'] is exit_values.INVALID_SUITE,
+               'the error is rendered on stderr': lambda self, environment, trace:
+               [e[1]['printer'] for e in trace if e[0] == 'print-suite-read-error']
+               == [environment.std_file_printers.err],
+               # frame (checked): no reporter of an execution is created, no case is processed
+           }, raises_only=())
+
+EXECUTION_REPORTER = Inst(processing._SuiteExecutionReporter,
+                          _root_suite=SUITE, _suite_root_file_path=Iface(PathI),
+                          _suite_processing_reporter=Iface(RootProcessingReporterI),
+                          _suite_enumerator=Inst(enumeration.DepthFirstEnumerator),
+                          _default_case_configuration=Iface(DefaultConfI),
+                          _test_case_processor_constructor=Iface(ProcessorConstructorI))
+
+
+def _runs_in_post_order(ghost, root):
+    """the suites given to the executor are the hierarchy in post-order; the monitor accepted the run"""
+    return ghost['suites_ok'] and ghost['cases_ok'] and ghost['root_phase'] == 3 \
+        and len(ghost['suites']) == root.po_len \
+        and forall_range(0, len(ghost['suites']), lambda k: ghost['suites'][k].ident == root.po(k))
+
+
+def _assume_po_def_of_root(interp, args, ghosts):
+    assume_pred(interp, _po_def, args['self']._root_suite)
+
+
+M.contract(P_PROC + ':_SuiteExecutionReporter.report', params=dict(self=EXECUTION_REPORTER, environment=ENVIRONMENT),
+           inline=True, setup=_assume_po_def_of_root, modifies=dict(_RUN), old=lambda ghost: dict(ghost),
+           ensures={
+               'one execution reporter': lambda ghost, old:
+               ghost['execution_reporters'] == old['execution_reporters'] + 1,
+               'every suite of the hierarchy once, sub-suites first; in each, every listed case once in order':
+                   lambda self, ghost: _runs_in_post_order(ghost, self._root_suite),
+               'exit code is the final result of the reporter': lambda ghost, ret: ret == ghost['final'],
+           }, raises_only=())
+
+M.contract(P_PROC + ':Processor.process',
+           params=dict(self=PROCESSOR, suite_root_file_path=Iface(PathI), reporting_environment=ENVIRONMENT),
+           returns=Int, modifies=dict(_RUN, **dict(_READ, **_INVALID)), old=lambda ghost: dict(ghost),
+           ensures={
+               'a suite that cannot be read: INVALID_SUITE, exit 3, no case executed': lambda ghost, old, ret:
+               implies(ghost['read_failed'],
+                       ret == 3 and ghost['invalid_reported'] == old['invalid_reported'] + 1
+                       and ghost['invalid_exit_value'] is exit_values.INVALID_SUITE
+                       and ghost['n_applied'] == old['n_applied']
+                       and ghost['execution_reporters'] == old['execution_reporters']),
+               'otherwise every suite once, sub-suites first; every listed case once in order': lambda ghost, old, ret:
+               ghost['read_failed'] or (_runs_in_post_order(ghost, ghost['read_suite']) and ret == ghost['final']
+                                        and ghost['invalid_reported'] == old['invalid_reported']),
+           }, raises_only=())
 
 # the real SubSuiteReporter records what it is told, in order (what SubSuiteReporterI.case_end stands for)
 M.contract('exactly_lib.test_suite.reporting:SubSuiteReporter.case_end',
